@@ -299,3 +299,58 @@ func R47() Rule {
 		}
 	}}
 }
+
+// ---------------------------------------------------------------------------
+// R48: a filepath.Walk callback examines its error before deciding anything
+// ---------------------------------------------------------------------------
+
+// R48: filepath.Walk reports a failed lstat/readdir — in particular "the root does
+// not exist" — only through the callback's err parameter, together with a nil
+// FileInfo.  A callback that can return (nil or otherwise) before looking at err
+// swallows that report: listing a bucket that does not exist then succeeds with an
+// empty result (the file store answers 200 where the memory store answers 404),
+// or dereferences the nil FileInfo.
+func R48() Rule {
+	return Rule{Name: "R48", Run: func(c *core.Ctx) {
+		P := c.P
+		n := 0
+		for _, pkg := range []string{core.PkgBttest, core.PkgGcsemu} {
+			if P.SPkgs[pkg] == nil {
+				continue
+			}
+			for _, fn := range P.SrcFuncs(pkg) {
+				for _, ci := range core.AllCalls(fn) {
+					if ci.Static == nil || ci.Static.Pkg == nil || ci.Static.Pkg.Pkg.Path() != "path/filepath" || ci.Static.Name() != "Walk" {
+						continue
+					}
+					cb := closureOf(ci.Common.Args[1])
+					if cb == nil || len(cb.Params) != 3 {
+						continue
+					}
+					n++
+					c.Fn(core.FuncName(cb))
+					errParam := cb.Params[2]
+					ok := true
+					var at token.Pos = cb.Pos()
+					for _, r := range returnsIn(cb) {
+						examined := false
+						for _, f := range core.FactsAt(r.Block()) {
+							if b, isB := f.Cond.(*ssa.BinOp); isB && (b.Op == token.EQL || b.Op == token.NEQ) {
+								if core.Resolve(b.X) == ssa.Value(errParam) || core.Resolve(b.Y) == ssa.Value(errParam) {
+									examined = true
+								}
+							}
+						}
+						if !examined {
+							ok, at = false, r.Pos()
+						}
+					}
+					c.Check(ok, "R48", core.FuncName(cb)+"/walk-error-examined-first", at, "every return of the callback is reached through a test of its err parameter", "the walk callback can return without having looked at its err parameter: a failed walk (missing root directory) is reported as an empty, successful walk")
+				}
+			}
+		}
+		if n < 1 {
+			c.Unknown("R48", "floor/walks", token.NoPos, "no filepath.Walk callback found")
+		}
+	}}
+}
